@@ -3,7 +3,7 @@
  * Serves C05, C06, C07 and the schedule-quantified part of C09.   DS_PER_FLAVOR
  *
  * cfg: init_order max_order min_order mm(0 order,1 chunk,2 mmap) flags(bit0 AUTO_RESIZE, bit1 ACCOUNTING)
- *      hash(0 identity,1 all-collide,2 high-bits-only,3 small-collide) freemode(0 at thread end, 1 right after the removal via synchronize_rcu,
+ *      hash(0 identity,1 all-collide,2 high-bits-only,3 small-collide,4 top-buckets) freemode(0 at thread end, 1 right after the removal via synchronize_rcu,
  *      2 call_rcu)
  * Node ids are static: node of operation i of thread t is t*12+i.  Every table operation runs in its own read-side section.
  *   add k | addu k | addr k      cds_lfht_add / add_unique / add_replace with a fresh node of key k
@@ -68,6 +68,7 @@ static NS unsigned long hash_of(int key)
 	case 0: return (unsigned long)key;
 	case 1: return 5;
 	case 2: return ((unsigned long)key << 60) | 1;
+	case 4: return ~(unsigned long)key;	/* the last buckets of the table at every size */
 	default: return (unsigned long)(key & 1) + 2;
 	}
 }
